@@ -256,6 +256,12 @@ def run_hist_check(prop, tier):
     units = hist_units(prop, tier, vf.SEED)
     if prop in ("C02", "C03", "C04", "C05", "C10"):
         units += layout_units(prop, tier, vf.SEED)
+    if prop == "C18":
+        # comparisons with empty vectors in every representation (default-constructed, capacity 0, block address shared with
+        # another vector): the cmp engine's vector-level pools
+        for cfg, k in [("P:u32,P:f32", "std"), ("P:u8,F:u8", "std"), ("P:str,F:str", "s000"), ("C:u64@8,V:u8,P:u8", "std"), ("F:f32,P:u32,C:u64@8,V:f32", "s000"), ("C:u32,V:str,P:Tr8", "s101")]:
+            for fl in (["plain", "asan"] if tier == "quick" else ["plain", "asan", "casan"]):
+                units.append(Unit("cmp", cfg, k, fl, {"seed": vf.SEED, "focus": "C18"}, 200 if tier == "quick" else 1000, batch=100))
     if prop in ELEMENT_PROPS:
         # these properties speak about standalone ContiguousElements as well
         eu = elem_units(tier, vf.SEED)
@@ -461,9 +467,28 @@ def ref_units(tier, seed):
     return units
 
 
+REF_HIST_CONFIGS = [("P:u32,F:f32", "s000"), ("F:f32,P:u32,F:f32", "std"), ("F:str,P:str", "s110"), ("F:Tr4,P:u8,F:Tr24@8", "s000"), ("F:f32,P:u32,C:u64@8,V:f32", "s000"),
+                    ("P:u32,C:u64@8,V:f32", "s000"), ("C:u32,V:Tr4,P:Tr24", "s110"), ("P:Tr8,P:u16,P:str", "s010")]
+
+
+def ref_hist_units(tier, seed):
+    """Iterator objects that outlive the states of a pool of vectors (reallocation, assignment between vectors of other
+    fixed sizes, destruction) and are then assigned a new position: the hist engine's iterator_reseat operation."""
+    units = []
+    for cfg, k in REF_HIST_CONFIGS:
+        for fl in (["plain", "asan"] if tier == "quick" else ["plain", "asan", "casan"]):
+            a = dict(tier_limits(tier))
+            a.update({"profile": "copymove", "seed": seed, "focus": "C11"})
+            avoid = ",".join(vf.avoid_tokens(vf.load_known()))
+            if avoid:
+                a["avoid"] = avoid
+            units.append(Unit("hist", cfg, k, fl, a, 1000 if tier == "quick" else 3000, batch=100))
+    return units
+
+
 def run_ref_check(tier):
     t0 = time.time()
-    units = ref_units(tier, vf.SEED)
+    units = ref_units(tier, vf.SEED) + ref_hist_units(tier, vf.SEED)
     errs = vf.run_units(units)
     return vf.conclude("C11", tier, "exploration", units, errs, REF_RULE, t0,
                        assumptions=["reference assignment / swap only between elements of equal field sizes (the documented precondition)", "a prvalue mutable reference on the right-hand side is an rvalue mutable reference: the assignment moves",
@@ -701,11 +726,11 @@ def units_for(prop, tier, seed):
     if prop == "LAYOUT":
         return layout_units("C02", tier, seed)
     if prop in HIST_PROPS:
-        return hist_units(prop, tier, seed) + (layout_units(prop, tier, seed) if prop in ("C02", "C03", "C04", "C05", "C10") else []) + (elem_units(tier, seed) if prop in ELEMENT_PROPS else [])
+        return hist_units(prop, tier, seed) + (layout_units(prop, tier, seed) if prop in ("C02", "C03", "C04", "C05", "C10") else []) + (elem_units(tier, seed) if prop in ELEMENT_PROPS else [])  # (C18's cmp units: see run_hist_check)
     if prop in ("C13", "C14"):
         return cmp_units(prop, tier, seed)
     if prop == "C11":
-        return ref_units(tier, seed)
+        return ref_units(tier, seed) + ref_hist_units(tier, seed)
     if prop == "C12":
         return elem_units(tier, seed)
     if prop == "C15":
